@@ -354,12 +354,29 @@ fn random_case() -> BoxedStrategy<Case> {
 }
 
 pub fn run(ctx: &Ctx) {
-    ctx.set_rule("E2: every pair from the 18-value integer grid (0, +-1, +-2, +-3, +-7, 10, +-2^31, +-2^62, MAX-1, MAX, MIN, MIN+1) spelled as integer / numeric string / float for the 7 binary filters, the grid for the 4 unary ones, all k/8 (|k|<=40) for ceil/floor/round (with 0..6 places) and as float pairs; E1: random 64-bit / near-power-of-two integers, finite doubles, decimal strings. Oracle: exact i128 / IEEE f64 reference inside the harness. Non-trivial = a boundary operand (|v| >= 2^62), a .5 tie, a numeric-string operand or an int/float mix; distinct by (filter, operands).");
+    ctx.set_rule("E2: every pair from the 18-value integer grid (0, +-1, +-2, +-3, +-7, 10, +-2^31, +-2^62, MAX-1, MAX, MIN, MIN+1) spelled as integer / numeric string / float for the 7 binary filters, the grid for the 4 unary ones, all k/8 (|k|<=40) for ceil/floor/round (with 0..6 places) and as float pairs; numeric strings in 13 further spellings (exponents, explicit plus, leading / trailing zeros, 20 digits, subnormal) against 5 operands for every filter; E1: random 64-bit / near-power-of-two integers, finite doubles, decimal strings. Oracle: exact i128 / IEEE f64 reference inside the harness. Non-trivial = a boundary operand (|v| >= 2^62), a .5 tie, a numeric-string operand or an int/float mix; distinct by (filter, operands).");
     ctx.assume("ceil/floor/round of integers beyond 2^53 and of non-finite floats are not asserted (statement claims floats within the 64-bit range)");
     let n = grid().len() as u64;
     ctx.exhaustive("grid_binary", 7 * n * 3 * n * 3, grid_nth, oracle);
     ctx.exhaustive("grid_unary", 4 * n * 3, unary_nth, oracle);
     ctx.exhaustive("eighths_unary", 3 * 81 * 2 * 8, eighths_unary, oracle);
     ctx.exhaustive("eighths_pairs", 7 * 81 * 81, eighths_pairs, oracle);
+    // numeric strings in the spellings a decimal parser accepts beyond plain digits: exponents,
+    // explicit plus sign, leading zeros, trailing zeros
+    let spellings = ["1e3", "2.5e-3", "6.02E23", "-1E2", "1e0", "+5", "+2.5", "007", "1.50", "-0.0", "0e0", "12345678901234567890", "1e-320"];
+    let others: Vec<RV> = vec![RV::Int(2), RV::Int(-3), fl(0.5), st("4"), st("1e1")];
+    let mut v = Vec::new();
+    for s in spellings {
+        for op in UNARY {
+            v.push(Case { op: op.to_string(), a: st(s), b: None });
+        }
+        for op in BINARY {
+            for o in &others {
+                v.push(Case { op: op.to_string(), a: st(s), b: Some(o.clone()) });
+                v.push(Case { op: op.to_string(), a: o.clone(), b: Some(st(s)) });
+            }
+        }
+    }
+    ctx.cases("numeric_string_spellings", v, oracle);
     ctx.random("random", ctx.pick(1_500_000, 150_000_000), random_case, oracle);
 }
